@@ -2,6 +2,7 @@
 //! canonical result line per case (the Lean driver `h3drv` prints the model's and the
 //! specification's answer for the same lines).
 mod c12_sim;
+mod c14_sim;
 mod e_c02;
 mod e_c05;
 mod e_c11;
@@ -29,7 +30,7 @@ fn dispatch(w: &[&str]) -> String {
         Some("hdr") => e_c12::handle(w),
         Some("dyn") => e_c20::handle(w),
         Some("qpack") => e_c11::handle(w),
-        Some("wbuf") => e_c14::handle(w),
+        Some("wbuf") | Some("sdc") => e_c14::handle(w),
         Some("quinn") => e_c17::handle(w),
         Some("pint") | Some("huff") | Some("pstr") => e_c15::handle(w),
         Some("frame") | Some("fs") => e_c02::handle(w),
